@@ -1,9 +1,201 @@
-from props import idfam
+"""C06 bounded parts: vocabulary of returned estimands.  ID / IDC: only observational probability terms over nodes of the
+user's graph (checked on the same enumerated / sampled queries as C01 and C03).  ID* / IDC*: every probability term is
+single-world (all its variables carry one common intervention set).  Transport: population-tagged terms of declared domains under declared experiments, no selection nodes, on a restricted family of graphs."""
+from __future__ import annotations
+
+import json
+import multiprocessing as mp
+import random
+import time
+
+from props import C03, cfcommon, idfam
+from y0vc import concrete, oracles, pipeline
+
+
+def single_world(e):
+    dsl = concrete.y0mod("y0.dsl")
+    if isinstance(e, dsl.Probability):
+        sets = {frozenset(v.interventions) if isinstance(v, dsl.CounterfactualVariable) else frozenset() for v in (*e.children, *e.parents)}
+        return None if len(sets) == 1 else f"term {e} mixes the worlds {sorted(map(lambda s: sorted(map(str, s)), sets))}"
+    if isinstance(e, dsl.Sum):
+        return single_world(e.expression)
+    if isinstance(e, dsl.Product):
+        return next((w for w in map(single_world, e.expressions) if w), None)
+    if isinstance(e, dsl.Fraction):
+        return single_world(e.numerator) or single_world(e.denominator)
+    return None
+
+
+def run_star(c):
+    ids = concrete.y0mod("y0.algorithm.identify.id_star")
+    idcs = concrete.y0mod("y0.algorithm.identify.idc_star")
+    g = oracles.build(c["nodes"], c["directed"], c["undirected"])
+    ev = cfcommon.event_from_json(c["event"])
+    out = None
+    try:
+        est = ids.id_star(g, dict(ev))
+        out = single_world(est)
+    except Exception:
+        pass            # refusals and the crashes listed under C07/C18 are not this property's business
+    if out is None and len(ev) >= 2:
+        items = list(ev.items())
+        try:
+            est = idcs.idc_star(g, dict(items[:1]), dict(items[1:]))
+            out = single_world(est)
+        except Exception:
+            pass
+    return out
+
+
+def transport_vocab(expr, nodes, experiments):
+    """None, or why the transport estimand leaves the available vocabulary"""
+    dsl = concrete.y0mod("y0.dsl")
+    leaves, ranges = [], []
+
+    def walk(e):
+        if isinstance(e, dsl.Probability):
+            leaves.append(e)
+        elif isinstance(e, dsl.Sum):
+            ranges.extend(e.ranges)
+            walk(e.expression)
+        elif isinstance(e, dsl.Product):
+            for x in e.expressions:
+                walk(x)
+        elif isinstance(e, dsl.Fraction):
+            walk(e.numerator)
+            walk(e.denominator)
+        elif not isinstance(e, (dsl.One, dsl.Zero)):
+            raise TypeError(type(e))
+    walk(expr)
+    for r in ranges:
+        if type(r) is not dsl.Variable or r.name not in nodes:
+            return f"summation over {r}, which is not a node of the user's graph"
+    for leaf in leaves:
+        if not isinstance(leaf, dsl.PopulationProbability):
+            return f"{leaf} carries no population tag"
+        pop = leaf.population
+        if pop == dsl.TARGET_DOMAIN:
+            allowed = set()
+        elif pop.name in experiments:
+            allowed = set(experiments[pop.name])
+        else:
+            return f"{leaf} refers to the undeclared domain {pop}"
+        for v in (*leaf.children, *leaf.parents):
+            if v.get_base().name not in nodes:
+                return f"{leaf} mentions {v}, not a node of the user's graph"
+            if isinstance(v, dsl.CounterfactualVariable):
+                for i in v.interventions:
+                    if i.get_base().name not in allowed:
+                        return f"{leaf}: do({i.name}) is not an experiment available in {pop}"
+    return None
+
+
+def run_transport(c):
+    dsl = concrete.y0mod("y0.dsl")
+    tr = concrete.y0mod("y0.algorithm.transport")
+    V = dsl.Variable
+    g = oracles.build(c["nodes"], c["directed"], c["undirected"])
+    pops = {p: dsl.Population(p) for p in c["experiments"]}
+    try:
+        est = tr.identify_target_outcomes(g, target_outcomes={V(y) for y in c["Y"]}, target_interventions={V(x) for x in c["X"]},
+                                          surrogate_outcomes={pops[p]: {V(w) for w in ws} for p, ws in c["surrogates"].items()},
+                                          surrogate_interventions={pops[p]: {V(z) for z in zs} for p, zs in c["experiments"].items()})
+    except Exception:
+        return None       # failures are C05's business
+    if est is None:
+        return None
+    return transport_vocab(est, set(c["nodes"]), c["experiments"])
+
+
+def transport_cases(tier, rng):
+    """DAGs on 3-4 nodes with at most one bidirected edge that touches neither an outcome nor a root (on other shapes the
+    unchanged library was reported to depend on the hash seed); one or two source domains."""
+    import itertools as itt
+    for n in (3, 4):
+        vs = oracles.names(n)
+        pairs = list(itt.combinations(vs, 2))
+        masks = range(1 << len(pairs)) if n == 3 or tier == "thorough" else [rng.randrange(1 << len(pairs)) for _ in range(120)]
+        for dm in masks:
+            d = [p for k, p in enumerate(pairs) if dm >> k & 1]
+            x, y = rng.sample(vs, 2)
+            roots = {v for v in vs if not any(b == v for _, b in d)}
+            bis = [[]] + [[p] for p in pairs if y not in p and not (set(p) & roots)]
+            u = rng.choice(bis)
+            z1, w1 = rng.choice(vs), rng.choice(vs)
+            exps, surr = {"pi1": [z1]}, {"pi1": [w1]}
+            if rng.random() < 0.3:
+                exps["pi2"], surr["pi2"] = [rng.choice(vs)], [rng.choice(vs)]
+            yield {"nodes": vs, "directed": d, "undirected": u, "X": [x], "Y": [y], "experiments": exps, "surrogates": surr}
+
+
+def _eval_tr(c):
+    try:
+        return c, run_transport(c), None
+    except Exception as e:
+        return c, None, f"{type(e).__name__}: {e}"
+
+
+def _eval_star(c):
+    try:
+        return c, run_star(c), None
+    except Exception as e:
+        return c, None, f"{type(e).__name__}: {e}"
+
+
+def _eval_idc(c):
+    try:
+        why = C03.run_case(c)
+        return c, (why if why and "vocabulary" in why else None), None
+    except Exception as e:
+        return c, None, f"{type(e).__name__}: {e}"
 
 
 def extra(rep, repo, registry, known_open):
     idfam.sweep(rep, "C06", 400 if rep.tier == "quick" else 12000)
+    t0 = time.time()
+    rng = random.Random(repr((rep.seed, "C06")))
+    concrete.y0mod("y0.dsl")
+    idc_cases = list(C03.gen_cases(rep.tier, rng, 200 if rep.tier == "quick" else 6000))
+    star_cases = []
+    for vs, d, u in cfcommon.small_graphs(rng, rep.tier, 200 if rep.tier == "quick" else 5000):
+        for _ in range(2):
+            ev = cfcommon.random_event(rng, vs, kmax=3)
+            star_cases.append({"nodes": vs, "directed": d, "undirected": u, "event": cfcommon.event_to_json(ev)})
+    fails, errs = [], []
+    with mp.get_context("fork").Pool(16) as pool:
+        for c, why, err in pool.imap_unordered(_eval_idc, idc_cases, chunksize=16):
+            if err:
+                errs.append(err)
+            elif why:
+                fails.append((c, why, "idc"))
+        for c, why, err in pool.imap_unordered(_eval_star, star_cases, chunksize=16):
+            if err:
+                errs.append(err)
+            elif why:
+                fails.append((c, why, "star"))
+        tr_cases = list(transport_cases(rep.tier, rng))
+        for c, why, err in pool.imap_unordered(_eval_tr, tr_cases, chunksize=16):
+            if err:
+                errs.append(err)
+            elif why:
+                fails.append((c, why, "transport"))
+    if errs:
+        rep.errors.append(f"C06 bounded part: {len(errs)} evaluation errors, e.g. {errs[0]}")
+    rep.extra_parts.append({"name": "vocabulary-of-idc-and-idstar-estimands", "kind": "bounded", "decides": True, "evaluations": len(idc_cases) + len(star_cases) + len(tr_cases),
+                            "scope": "IDC estimands on the C03 query set (observational vocabulary); ID* / IDC* estimands on sampled events over every ADMG with 2-3 nodes and "
+                                     "sampled 3-4 node ADMGs (single-world terms); transport estimands on DAGs with 3-4 nodes and at most one bidirected edge away from outcomes and roots, 1-2 source domains (population tags, declared experiments, no selection nodes)", "failures": len(fails), "wall_s": round(time.time() - t0, 1)})
+    if fails:
+        c, why, kind = min(fails, key=lambda f: len(json.dumps(f[0])))
+        path = pipeline.write_replay("C06", "bounded.vocab", {"property": "C06", "obligation": f"vocabulary/bounded.{kind}", "case": c, "why": why, "kind": kind})
+        rep.violations.append((f"vocabulary/bounded.{kind}", path, ""))
 
 
 def replay(payload, path):
-    return idfam.replay("C06", payload, path)
+    if "kind" not in payload:
+        return idfam.replay("C06", payload, path)
+    why = run_star(payload["case"]) if payload["kind"] == "star" else (run_transport(payload["case"]) if payload["kind"] == "transport" else _eval_idc(payload["case"])[1])
+    print(json.dumps({"case": payload["case"], "now": why}, indent=1))
+    if why:
+        print(f"VIOLATION property=C06 replay={path}")
+        return 1
+    return 0
